@@ -6,9 +6,11 @@ import (
 	"strings"
 	"unicode/utf8"
 
+	"github.com/vektah/gqlparser/v2"
 	"github.com/vektah/gqlparser/v2/ast"
 	"github.com/vektah/gqlparser/v2/formatter"
 	"github.com/vektah/gqlparser/v2/parser"
+	"github.com/vektah/gqlparser/v2/validator"
 
 	"verifharness/internal/core"
 	"verifharness/internal/gen"
@@ -18,6 +20,7 @@ func init() {
 	Runners["C12"] = runC12
 	core.Ops["fq"] = implFormatQuery
 	core.Ops["fs"] = implFormatSchema
+	core.Ops["fsl"] = implFormatLoaded
 	core.Domain["fq"] = func(args [][]byte) bool { return utf8.Valid(args[2]) }
 	core.Domain["fs"] = func(args [][]byte) bool { return utf8.Valid(args[3]) }
 }
@@ -86,6 +89,54 @@ func implFormatSchema(args [][]byte) string {
 	return out + "ok " + DumpSchemaDoc(d2, false, nil) + "|" + same
 }
 
+// reloadFormatted: with built-in definitions printed the text is a complete type system, loaded on
+// its own as a built-in source; otherwise it is loaded after the prelude like any user source.
+func reloadFormatted(flags, text string) (*ast.Schema, error) {
+	if strings.Contains(flags, "b") {
+		s, err := validator.LoadSchema(&ast.Source{Name: "out", Input: text, BuiltIn: true})
+		if err != nil {
+			return nil, err
+		}
+		return s, nil
+	}
+	s, err := gqlparser.LoadSchema(&ast.Source{Name: "out", Input: text})
+	if err != nil {
+		return nil, err
+	}
+	return s, nil
+}
+
+// args: flags, indent, user sources...
+func implFormatLoaded(args [][]byte) string {
+	s, err := loadImpl(strs(args[2:])...)
+	if err != nil || s == nil {
+		return "schema-err"
+	}
+	opts := fmtOptions(string(args[0]), string(args[1]))
+	var buf bytes.Buffer
+	formatter.NewFormatter(&buf, opts...).FormatSchema(s)
+	out := hex.EncodeToString(buf.Bytes()) + "|"
+	s2, err := reloadFormatted(string(args[0]), buf.String())
+	if err != nil || s2 == nil {
+		return out + "err"
+	}
+	var buf2 bytes.Buffer
+	formatter.NewFormatter(&buf2, opts...).FormatSchema(s2)
+	same := "0"
+	if buf2.String() == buf.String() {
+		same = "1"
+	}
+	return out + "ok " + DumpSchema(s2) + "|" + same
+}
+
+func strs(bs [][]byte) []string {
+	out := make([]string, len(bs))
+	for i, b := range bs {
+		out[i] = string(b)
+	}
+	return out
+}
+
 // indents are strings of GraphQL WhiteSpace (space, tab); line terminators are not white space
 var fmtIndents = []string{"", " ", "\t", "  ", " \t", "\t "}
 var fmtFlagSets = []string{"", "c", "d", "cd"}
@@ -96,9 +147,9 @@ func eraseKinds(s string) string { return strings.ReplaceAll(s, "V4(", "V3(") }
 func runC12(c *core.Ctx) {
 	const thm = "C12_* (props/C12.v); model op fq = Ops.dump_format_query"
 	c.ReplayKnown()
-	nDocs := 3000
+	nDocs := 10000
 	if !c.Quick {
-		nDocs = 60000
+		nDocs = 200000
 	}
 	type cs struct{ text, expect, flags, indent string }
 	feats := map[string]int{}
